@@ -51,8 +51,8 @@ RICH = dict(notation={'a@b': 'vé', 'bin@b': bytearray(b'\x00\xff')}, policy_uri
 DOC = b'attack at dawn \xe2\x98\x83'
 TEXT = b'first line\r\nsecond line\nthird'
 
-KINDS_QUICK = ['doc', 'text', 'uidcert', 'binding', 'direct', 'keyrev', 'subrev', 'timestamp', 'uacert']
-KINDS_ALL = KINDS_QUICK + ['pkbinding', 'certrev', 'standalone', 'thirdparty', 'subkeydoc']
+KINDS_QUICK = ['doc', 'text', 'uidcert', 'binding', 'direct', 'keyrev', 'subrev', 'timestamp', 'uacert', 'pkbinding', 'subkeydoc']
+KINDS_ALL = KINDS_QUICK + ['certrev', 'standalone', 'thirdparty']
 
 
 def make(ks, kind):
